@@ -324,11 +324,60 @@ def gen_cases(desc, env):
 
 
 def shards(tier, seed):
-    return [{'kind': 'systematic', 'i': i} for i in range(NSH)] + [{'kind': 'random', 'i': i} for i in range(NSH)]
+    return [{'kind': 'systematic', 'i': i} for i in range(NSH)] + [{'kind': 'random', 'i': i} for i in range(NSH)] + [{'kind': 'huge', 'i': 0}]
+
+
+SET_INFINITY = 0x0FFFFFFF
+
+
+def huge_cases(tier):
+    """lazy products of lazy power sets whose true size runs from small to far beyond 2^31 (never enumerated)"""
+    combos = [[a, b] for a in range(1, 17) for b in range(1, 17)]
+    combos += [[a, b, c] for a in (1, 4, 8, 9, 10, 11, 12) for b in (1, 8, 10, 11) for c in (1, 9, 10, 11, 12)]
+    if tier != 'quick':
+        combos += [[a, b, c, d] for a in (5, 7, 8) for b in (6, 8) for c in (7, 8) for d in (1, 7, 8, 9)]
+    return [core.case([{'op': 'sd.huge', 'bases': c}], kind='huge', bases=c) for c in combos]
+
+
+def judge_huge(res, cs, cr):
+    if not core.std_death_checks(res, PROP, cs, cr):
+        return
+    ev = cr.events[0]
+    bases = cs['meta']['bases']
+    true_size = 1
+    for k in bases:
+        true_size *= 2 ** k
+    bad = []
+    card = ev['card']
+    if true_size >= SET_INFINITY:
+        if card != SET_INFINITY:
+            bad.append(('huge-cardinality', f'cardinality {card}, the true size {true_size} is beyond the documented maximum {SET_INFINITY} (saturation expected)'))
+    elif true_size * 2 <= SET_INFINITY:
+        if card != true_size:
+            bad.append(('huge-cardinality', f'cardinality {card}, true size {true_size}'))
+    elif card not in (true_size, SET_INFINITY):
+        bad.append(('huge-cardinality', f'cardinality {card}, true size {true_size} (or saturation {SET_INFINITY})'))
+    for k, want in (('isempty', False), ('eq_empty', False), ('lt_empty', False), ('contains_least', True), ('contains_greatest', True), ('single_subset', True)):
+        if ev[k] is not want:
+            bad.append((f'huge-{k}', f'{k} = {ev[k]} for a product of power sets of true size {true_size}'))
+    if true_size > 1 and (ev['lt_single'] or not ev['single_lt']):
+        bad.append(('huge-order', f"a set of true size {true_size} is not ordered after its one-element subset (lt_single={ev['lt_single']}, single_lt={ev['single_lt']})"))
+    if ev['first_elements'] < min(3, true_size):
+        bad.append(('huge-iteration', f"iteration yields {ev['first_elements']} elements, true size {true_size}"))
+    res.count('judged', 10)
+    res.cover('huge:saturated' if true_size >= SET_INFINITY else 'huge:exact')
+    for what, msg in bad[:1]:
+        res.violation(f'{PROP}/sd/{what}', f'ℬ-factors over {bases}-element bases: {msg}', cs)
+    res.judged(repr(('huge', bases)), nontrivial=True)
+    res.counters['judged'] -= 1
 
 
 def run_shard(desc, env):
     res = core.ShardResult()
+    if desc['kind'] == 'huge':
+        for cs, cr in env.execute(huge_cases(env.tier), chunk=100):
+            judge_huge(res, cs, cr)
+        return res
     for cs, cr in env.execute(gen_cases(desc, env), chunk=50):
         judge(res, cs, cr)
     return res
@@ -337,5 +386,5 @@ def run_shard(desc, env):
 def replay(cs, env):
     res = core.ShardResult()
     for c, cr in env.execute([cs]):
-        judge(res, c, cr)
+        (judge_huge if c['meta'].get('kind') == 'huge' else judge)(res, c, cr)
     return res
